@@ -797,3 +797,43 @@ RULES.append(("C01.MEMREADER", "the in-memory reader programs are fed through in
 RULES.append(("C01.DIAG", "an abnormal stop is reported: message unconditionally, note when present, on standard error (shared with C13.DIAG)", _shared("p_c13", "rule_diag")))
 RULES.append(("C01.REEMIT", "`run` re-emits output computed before the program starts to the stream it was written to (shared with C02.REEMIT)", _shared("p_c02", "rule_reemit")))
 RULES.append(("C01.UNICODE", "the output conversion and its diagnosis (shared with C13.UNICODE)", _shared("p_c13", "rule_unicode")))
+
+
+def rule_run(ctx, R):
+    """`hyeong run` hands every command of the program, in order, to execute(): the level-0 branch feeds the parsed
+    list, the optimised branch feeds the list optimize() returned; the state is threaded; streams are the real ones"""
+    from .util import dominating_edge_labels
+    fb = ctx.fb
+    b = fb.bodies.get("hyeong::app::run::run")
+    if not R.anchor(b is not None, "run", "app::run::run"):
+        return
+    R.analyse(b.name)
+    cfg = normal_cfg(b)
+    roles = Roles(b, fb, param_roles={1: "STDOUT", 2: "STDERR", 3: "OPT"})
+    ev = Events(b, fb, roles=roles)
+    PARSED = "TRY(ext::parse_file(STDOUT,UNWRAP(Option::as_ref(OPT.input)),OPT))"
+    OPTD = "TRY(optimize::optimize(%s,OPT.optimize))" % PARSED
+    want = {
+        "level0": (("LT[OPT.optimize,K1]=1", "EQ[K0,OPT.optimize]=1", "LT[K0,OPT.optimize]=0"), "ELEM<%s>" % PARSED, "UnOptState::new()"),
+        "optimised": (("LT[OPT.optimize,K1]=0", "EQ[K0,OPT.optimize]=0", "LT[K0,OPT.optimize]=1"), "ELEM<%s.1>" % OPTD, "%s.0" % OPTD),
+    }
+    execs = [(bi, t) for bi, t in b.calls() if callee_name(t["f"], fb) == "hyeong::core::execute::execute"]
+    R.floor("execute_calls", len(execs), 2, "calls of execute() in run() (one per branch)")
+    seen = set()
+    for bi, t in execs:
+        labs = dominating_edge_labels(cfg, b, ev, bi)
+        a = [roles.of_operand(x, bi) for x in t["args"]]
+        for nm, (lab, code, init) in want.items():
+            if not any(l in labs for l in lab):
+                continue
+            seen.add(nm)
+            loops_ = [(be, cfg.natural_loop(be)) for be in cfg.back_edges() if bi in cfg.natural_loop(be)]
+            every = bool(loops_) and all(not reaches_without(cfg, [sx for sx in cfg.succ[be[1]] if sx in lp], [be[0]], cut_blocks=[bi] + [x for x in range(len(b.blocks)) if x not in lp]) or be[0] == bi for be, lp in loops_)
+            threaded = a[3].startswith("PHI(TRY(execute::execute(stdio::stdin(),STDOUT,STDERR,LOOPVAR,") and a[3].endswith("|%s)" % init)
+            R.check(a[0] == "stdio::stdin()" and a[1] == "STDOUT" and a[2] == "STDERR" and a[4] == code and threaded and every, "run:executes:%s" % nm, "the %s branch of run() executes every command of its list, in order, on the real streams, each on the state the previous one left (streams %s, command %s, threaded %s, every iteration %s)" % (nm, a[:3], a[4][:60], threaded, every), t["span"]["at"])
+    for nm in want:
+        if nm not in seen:
+            R.check(False, "run:executes:%s" % nm, "the %s branch of run() executes the program (no call of execute() found behind the branch)" % nm, b.span)
+
+
+RULES.append(("C01.RUN", "`hyeong run` executes every command of the program in order, threading the state (both branches)", rule_run))
